@@ -5,7 +5,7 @@ from fractions import Fraction as F
 import random as _real_random
 
 COMPONENTS = ['laostar', 'lrtdp', 'astar', 'bfs', 'qlearning', 'sarsa', 'expectedsarsa', 'doubleq', 'rmax', 'bpi', 'gradientascent',
-              'semimdp', 'implicit', 'mdp_rollout', 'mdp_evaluate', 'pomdp_rollout']
+              'semimdp', 'semimdp_unnamed', 'implicit', 'mdp_rollout', 'mdp_evaluate', 'pomdp_rollout']
 
 
 def _mdp(c, tabular=True):
@@ -144,6 +144,25 @@ def run(name, seed, c, rnd=None):
         sm = SemiMarkovDecisionProcess(mdp=_mdp(c, tabular=False), options=[O()], n_option_simulations=(12 if c is float else 1), seed=seed)   # on the real code: enough simulations to make a seed change visible
         d = sm.next_state_transit_time_reward_dist('start', sm.options[0])
         return dict(dist=sorted(((k[0], k[1], k[2], p) for k, p in d.items()), key=lambda t: (t[0], t[1])))
+    if name == 'semimdp_unnamed':
+        # sub-goal options created WITHOUT a name (the library's default), the problem built afresh on every run
+        from msdm.core.semimdp.semimdp import SemiMarkovDecisionProcess
+        from msdm.core.semimdp.option import PlanToSubgoalOption
+        from msdm.algorithms.valueiteration import ValueIteration
+        import types
+        from msdm.core.mdp.policy import FunctionalPolicy
+        from msdm.core.distributions import DictDistribution
+        mdp = _mdp(c, tabular=True)
+        wander = types.SimpleNamespace(plan_on=lambda m: types.SimpleNamespace(
+            policy=FunctionalPolicy(lambda s: DictDistribution({'left': c(F(1, 2)), 'right': c(F(1, 2))}))))     # a stochastic option policy
+        opts = [PlanToSubgoalOption(mdp=mdp, initial_states=['start', 'mid'], subgoals=g, planner=pl, max_steps=6)
+                for g, pl in ((['goal'], wander), (['mid', 'goal'], ValueIteration(max_iterations=4)))]
+        sm = SemiMarkovDecisionProcess(mdp=mdp, options=opts, n_option_simulations=(12 if c is float else 1), seed=seed)
+        out = {}
+        for k, o_ in enumerate(opts):
+            d = sm.next_state_transit_time_reward_dist('start', o_)
+            out['dist%d' % k] = sorted(((e[0], e[1], e[2], p) for e, p in d.items()), key=lambda t: (t[0], t[1]))
+        return out
     if name == 'implicit':
         from msdm.core.distributions import ImplicitDistribution
         d = ImplicitDistribution(lambda rng: 'heads' if rng.random() < c(F(1, 3)) else 'tails', n_samples=2, _seed=seed)
@@ -202,4 +221,8 @@ if __name__ == '__main__':
     if name in ('bpi', 'gradientascent'):
         out = dict(seed_used=out['seed_used'])
     after = state()
-    print(json.dumps(dict(out=plain(out), undisturbed=[b == a for b, a in zip(before, after)])))
+    # the same problem built and run a second time in this process: equal seeds, equal results
+    out2 = run(name, seed, float)
+    if name in ('bpi', 'gradientascent'):
+        out2 = dict(seed_used=out2['seed_used'])
+    print(json.dumps(dict(out=plain(out), out2=plain(out2), undisturbed=[b == a for b, a in zip(before, after)])))
